@@ -22,6 +22,53 @@ theorem C06_log_shape (h : Frame → Bool) (tr : Bool) (chunks : List Bytes) :
   have := (chunking zbossScanner chunks).1
   exact congrArg (fun l => List.flatMap (outsOf tr) l) this
 
+/-- the same in **every link state**: whatever the sequence numbers and the pending acknowledgement wait are, a receiver
+    whose buffer is empty produces exactly the log of the frames the scanner accepts -/
+theorem C06_log_shape_any_state (h : Frame → Bool) (st : RxState) (hb : st.buf = []) (chunks : List Bytes) :
+    (session h st chunks).2 = (run tryFrame chunks.flatten).1.flatMap (outsOf st.transport) := by
+  have hs := session_out h chunks st [] []
+  simp only [List.nil_append, List.length_nil, List.drop_zero] at hs
+  unfold session
+  rw [hs.1, hb]
+  have := (chunking zbossScanner chunks).1
+  exact congrArg (fun l => List.flatMap (outsOf st.transport) l) this
+
+/-- `ZbossNcpProtocol.close()`: the buffer is emptied, both sequence numbers go back to 0, the transport is dropped -/
+def RxState.closed (st : RxState) : RxState := { st with buf := [], ackSeq := 0, packSeq := 0, transport := false }
+/-- `connection_made(transport)` -/
+def RxState.opened (st : RxState) : RxState := { st with transport := true }
+
+/-- **the port closed and opened again**: whatever the previous connection left behind - sequence numbers, a pending
+    acknowledgement wait, the beginning of a frame in the buffer - after `close()` and `connection_made()` on the same
+    object the receiver's log is that of a fresh receiver: every accepted data frame is acknowledged with its own number
+    and handed up; nothing of the previous connection's acknowledgements survives -/
+theorem C06_reopened_port (h : Frame → Bool) (st : RxState) (chunks : List Bytes) :
+    (session h st.closed.opened chunks).2 = (session h { transport := true } chunks).2 := by
+  rw [C06_log_shape_any_state h st.closed.opened rfl, C06_log_shape]
+  rfl
+
+/-- ... and while the port is closed nothing is written: accepted data frames are still handed up, without a write -/
+theorem C06_closed_port_writes_nothing (h : Frame → Bool) (st : RxState) (chunks : List Bytes) :
+    ∀ o ∈ (session h st.closed chunks).2, ∃ f, o = Out.deliver f := by
+  rw [C06_log_shape_any_state h st.closed rfl]
+  intro o ho
+  obtain ⟨f, _, hf⟩ := List.mem_flatMap.mp ho
+  have htr : st.closed.transport = false := rfl
+  rw [htr] at hf
+  unfold outsOf at hf
+  split at hf
+  · cases hf
+  · simp only [Bool.false_eq_true, if_false, List.nil_append] at hf
+    cases hhl : f.hl with
+    | none => rw [hhl] at hf; cases hf
+    | some p => rw [hhl] at hf; simp only [List.mem_singleton] at hf; exact ⟨f, hf⟩
+
+/-- non-vacuity: a link state with both numbers advanced, a wait pending and half a signature buffered; closed and opened
+    again it logs the ACK and the hand-up of the data frame that arrives, like a fresh receiver -/
+example : (session (fun _ => false) (RxState.opened (RxState.closed { buf := [0xDE], packSeq := 2, ackSeq := 3, hasEvent := true }))
+      [[0xDE, 0xAD, 0x0c, 0x00, 0x06, 0xc8, 0xe9, 0x31, 0xa4, 0x00, 0x00, 0x02, 0x00, 0x01]]).2.length = 2 := by
+  rw [C06_reopened_port, C06_log_shape]; decide +kernel
+
 /-- the handler's failures change nothing at all (they are caught per frame) -/
 theorem C06_handler_irrelevant (h1 h2 : Frame → Bool) (st : RxState) (chunks : List Bytes) :
     session h1 st chunks = session h2 st chunks := by
